@@ -1229,6 +1229,28 @@ class Ctx:
     def abs(self, x):
         return abs(x)
 
+    def log(self, x):
+        if self.mode == "sym":
+            return self.ulog(self._sr(x))
+        return math.log(x) if x > 0 else float("nan")
+
+    def exp(self, x):
+        if self.mode == "sym":
+            return self.uexp(self._sr(x))
+        return math.exp(x)
+
+    def close(self, a, b, rtol=1e-9):
+        """|a-b| <= rtol*|b| : for results that involve floating point constants whose last bit depends on how the
+        source spells them (8*pi**3, 180/pi ...). The concrete replay uses half the tolerance so that every model that
+        violates the symbolic claim also violates the replayed one."""
+        if self.mode == "sym":
+            a, b = self._sr(a), self._sr(b)
+            tol = abs(b) * Fraction(rtol)
+            return self.And(a - b <= tol, b - a <= tol)
+        if a != a or b != b:
+            return (a != a) and (b != b)
+        return abs(a - b) <= 0.5 * rtol * abs(b)
+
     def mod(self, x, p):
         """x % p (p positive constant), result in [0,p)"""
         if self.mode == "sym":
